@@ -13,53 +13,16 @@ import (
 	"ebuverif/vrt"
 )
 
-func sub(ty, slot int, o evt.SubOpts) bp.Op { return bp.Op{K: bp.Sub, Ty: ty, Slot: slot, O: o} }
-func unsub(ty, slot int) bp.Op              { return bp.Op{K: bp.Unsub, Ty: ty, Slot: slot} }
-func pub(ty int) bp.Op                      { return bp.Op{K: bp.Pub, Ty: ty} }
-func pubOdd(ty int) bp.Op                   { return bp.Op{K: bp.Pub, Ty: ty, Odd: true} }
-func clr(ty int) bp.Op                      { return bp.Op{K: bp.Clear, Ty: ty} }
-func cnt(ty int) bp.Op                      { return bp.Op{K: bp.Count, Ty: ty} }
-
 var (
-	plain  = evt.SubOpts{}
-	once   = evt.SubOpts{Once: true}
-	async  = evt.SubOpts{Async: true}
-	filt   = evt.SubOpts{Filter: 1}
-	onceAs = evt.SubOpts{Once: true, Async: true}
-	onceF  = evt.SubOpts{Once: true, Filter: 1}
+	sub     = bp.SubOp
+	unsub   = bp.UnsubOp
+	pub     = bp.PubOp
+	clr     = bp.ClearOp
+	cnt     = bp.CountOp
+	plain   = evt.SubOpts{}
+	once    = evt.SubOpts{Once: true}
+	curated = bp.Curated
 )
-
-// Curated programs aimed at the windows the property names.
-func curated() []*bp.Prog {
-	return []*bp.Prog{
-		{Name: "unsub-during-publish", Pre: []bp.Op{sub(0, 0, plain), sub(0, 1, plain), sub(0, 2, plain)},
-			Tasks: [][]bp.Op{{pub(0)}, {unsub(0, 1)}, {pub(0)}}},
-		{Name: "two-once-removals-vs-unsub", Pre: []bp.Op{sub(0, 0, once), sub(0, 1, plain), sub(0, 2, once), sub(0, 3, plain)},
-			Tasks: [][]bp.Op{{pub(0)}, {pub(0)}, {unsub(0, 1)}}},
-		{Name: "clear-between-claim-and-removal", Pre: []bp.Op{sub(0, 0, once), sub(0, 1, plain)},
-			Tasks: [][]bp.Op{{pub(0)}, {clr(0), sub(0, 2, plain)}, {pub(0)}}},
-		{Name: "subscribe-during-dispatch", Pre: []bp.Op{sub(0, 0, plain)},
-			Tasks: [][]bp.Op{{pub(0), pub(0)}, {sub(0, 1, plain)}, {sub(0, 2, plain), unsub(0, 0)}}},
-		{Name: "same-function-twice", Pre: []bp.Op{sub(0, 0, plain), sub(0, 0, plain), sub(0, 1, plain)},
-			Tasks: [][]bp.Op{{pub(0)}, {unsub(0, 0)}, {unsub(0, 0), pub(0)}}},
-		{Name: "two-types-one-shard", Pre: []bp.Op{sub(0, 0, plain), sub(1, 0, plain)},
-			Tasks: [][]bp.Op{{pub(0), clr(0)}, {pub(1), sub(1, 1, plain)}, {sub(0, 1, plain), pub(0)}}},
-		{Name: "once-filter-mixed", Pre: []bp.Op{sub(0, 0, onceF), sub(0, 1, filt)},
-			Tasks: [][]bp.Op{{pubOdd(0), pub(0)}, {pub(0)}, {unsub(0, 1)}}},
-		{Name: "async-handlers", Pre: []bp.Op{sub(0, 0, async), sub(0, 1, plain)},
-			Tasks: [][]bp.Op{{pub(0)}, {unsub(0, 0)}, {sub(0, 2, async), pub(0)}}},
-		{Name: "once-async-two-publishers", Pre: []bp.Op{sub(0, 0, onceAs), sub(0, 1, plain)},
-			Tasks: [][]bp.Op{{pub(0)}, {pub(0)}, {cnt(0)}}},
-		{Name: "count-during-churn", Pre: []bp.Op{sub(0, 0, plain)},
-			Tasks: [][]bp.Op{{sub(0, 1, plain), cnt(0)}, {unsub(0, 0), cnt(0)}, {pub(0)}}},
-		{Name: "resubscribe-after-unsub", Pre: []bp.Op{sub(0, 0, plain)},
-			Tasks: [][]bp.Op{{unsub(0, 0), sub(0, 0, plain)}, {pub(0)}, {pub(0)}}},
-		{Name: "four-tasks-registry-churn", Pre: []bp.Op{sub(0, 0, plain), sub(0, 1, once)},
-			Tasks: [][]bp.Op{{pub(0)}, {unsub(0, 0)}, {sub(0, 2, plain)}, {pub(0)}}},
-		{Name: "clear-vs-once-vs-subscribe-4", Pre: []bp.Op{sub(0, 0, once), sub(1, 0, plain)},
-			Tasks: [][]bp.Op{{pub(0)}, {clr(0)}, {sub(0, 1, plain)}, {pub(1)}}},
-	}
-}
 
 // generated enumerates all programs of the grammar with 3 tasks and `total` calls.
 func generated(total int) []*bp.Prog {
